@@ -176,7 +176,7 @@ def classify(msg, line, off):
     m = re.search(r'\S.*?\b' + kw + r'\b[^:]*:\s*$', l)
     if m and not re.match(kw + r'\b', l) and not re.match(r'(el)?if\b|else\b|case\b|except\b', l) and not re.search(r'\bif\b.*\belse\b', l) and 'lambda' not in l:
         return 'statement-used-as-value:' + re.search(r'\b' + kw + r'\b[^:]*:\s*$', l).group(1)
-    if re.search(r'\(\s*pass\b|=\s*pass\b|\bpass\s+if\b', l):
+    if re.search(r'[(=,]\s*pass\b|\bpass\s+if\b|\belse\s+pass\b|\breturn\s+pass\b', l):
         return 'pass-used-as-value'
     if 'leading zeros' in msg:
         return 'leading-zero-literal'
